@@ -23,6 +23,36 @@ type Program struct {
 	ByPath   map[string]*packages.Package
 	RepoDir  string
 	sums     *Summaries
+	repoQuals map[string]bool
+}
+
+// mentionsRepoType: the heap array (by its mangled name) holds objects of a type declared in the repository module.
+func (p *Program) mentionsRepoType(name string) bool {
+	if p.repoQuals == nil {
+		p.repoQuals = map[string]bool{}
+		for path := range p.ByPath {
+			if strings.HasPrefix(path, repoModule) {
+				p.repoQuals[pkgQualifier(path)] = true
+			}
+		}
+	}
+	if i := strings.Index(name, ":"); i >= 0 {
+		name = name[i+1:]
+	}
+	tok := strings.FieldsFunc(name, func(r rune) bool {
+		return r == '*' || r == '[' || r == ']' || r == '{' || r == '}' || r == '(' || r == ')' || r == ',' || r == ' ' || r == ';'
+	})
+	for _, t := range tok {
+		slash := strings.LastIndex(t, "/")
+		dot := strings.Index(t[slash+1:], ".")
+		if dot < 0 {
+			continue
+		}
+		if p.repoQuals[t[:slash+1+dot]] {
+			return true
+		}
+	}
+	return false
 }
 
 const repoModule = "github.com/sdcio/data-server"
